@@ -50,6 +50,10 @@ func (fr *Frame) execCall(cc *ssa.CallCommon, st *State, site ssa.Instruction, d
 	// 2. interface method
 	if cc.IsInvoke() {
 		recv := fr.val(cc.Value)
+		if vc.contract != nil && vc.contract.Flags["nilcheck"] != "" && fr.dry == 0 {
+			// a method call on a nil interface value panics (checked where a contract asks for it)
+			fr.implicit(st, "nilcall", sNot(sEq(recv.C[0], "0")), sitePos(site), isAnyExpr, "call "+cc.Method.Name()+" on "+cc.Value.Name())
+		}
 		if c := vc.eng.ifaceContract(cc.Value.Type(), cc.Method.Name()); c != nil {
 			names := contractParamNames(c, nil, cc.Method.Type().(*types.Signature), true)
 			all := append([]Value{recv}, args...)
